@@ -380,6 +380,8 @@ class PrecipitateModel (PrecipitateBase):
         for p in range(len(self.phases)):
             x[p][:self.RdrivingForceIndex[p]+1] = 0
             x[p][self.PBM[p].PSDsize < self.constraints.minRadius] = 0
+            #A class allowed to dissolve within a single step can overshoot to a negative number density, it is empty
+            x[p][x[p] < 0] = 0
         return
     
     def _calcNucleationSites(self, t, x, p):
